@@ -163,12 +163,13 @@ Definition teardown_section (o : oracle) (st : estate) (force : bool) : section 
   else mkSec [Hook (MLeave st); Hook MDestroy] (Some (sDONE, true)) [] false.
 
 (* ------------------------------------------------------------------------------------------ *)
-(* Callers as programs over five actions.  Only ATry and ATeardown take the transition mutex. *)
+(* Callers as programs over five actions.  ATry, ATeardown and AForce take the transition mutex
+   (AForce since the repair of C01-b/c: Environment.ForceError). *)
 Inductive act :=
 | ALookup                  (* Manager.Environment(id): is the environment listed *)
 | ATry (ev : eevent)       (* env.TryTransition(<transition named ev>) *)
 | ATeardown (force : bool) (* TeardownEnvironment after its own lookup *)
-| AForce (s : estate)      (* Sm.SetState(s) / env.setState(s): no transition mutex *)
+| AForce (s : estate)      (* env.ForceError(): under the transition mutex, refused on DONE *)
 | ARead.                   (* env.CurrentState() *)
 
 Inductive ares := RB (b : bool) | RS (s : estate) | RU.
@@ -300,6 +301,8 @@ Definition act_section tbl bodyful (o : oracle) (a : act) (st : estate) : sectio
   match a with
   | ATry ev => fsm_section tbl bodyful o st ev
   | ATeardown force => teardown_section o st force
+  | AForce s => if estate_eqb st sDONE || estate_eqb st s then mkSec [] None [] false
+                else mkSec [] (Some (s, false)) [] false
   | _ => mkSec [] None [] false
   end.
 
@@ -307,8 +310,7 @@ Definition exec_act tbl bodyful (o : oracle) (a : act) (w : world) : world * are
   match a with
   | ALookup => (w, RB (w_listed w), [])
   | ARead => (w, RS (w_st w), [])
-  | AForce s => (mkWorld s (w_listed w), RU, force_items (w_st w) s)
-  | ATry _ | ATeardown _ =>
+  | ATry _ | ATeardown _ | AForce _ =>
     let sec := act_section tbl bodyful o a (w_st w) in
     (mkWorld (sec_final (w_st w) sec) (w_listed w && negb (sec_unlists sec)),
      RB (sec_err sec), sec_trace sec)
@@ -349,8 +351,8 @@ Definition edges_ok (l : list (estate * estate)) : bool := forallb edge_ok l.
 (* Concurrent semantics.  A thread is a program with its oracle; a schedule is the list of thread
    indices chosen by the scheduler.  A locked section takes three steps (begin: lock, compute the
    section from the current state, emit the items before the state write; commit: the state
-   write; end: the remaining items, unlock), every other action takes one step.  ALookup, ARead
-   and AForce are enabled at any time: they do not take the transition mutex in the code. *)
+   write; end: the remaining items, unlock), every other action takes one step.  ALookup and ARead
+   are enabled at any time: they do not take the transition mutex in the code. *)
 Inductive tphase :=
 | TIdle
 | TPre (s : section) (k : ares -> prog)
@@ -363,8 +365,7 @@ Record cstate := mkC {
   c_lock : bool;
   c_threads : list thread;
   c_trace : list titem;                 (* global trace, newest first *)
-  c_edges : list (estate * estate);     (* every state write that changed the state, newest first *)
-  c_hazard : bool                       (* a forced state happened inside somebody's section or on DONE *)
+  c_edges : list (estate * estate)      (* every state write that changed the state, newest first *)
 }.
 
 Fixpoint set_nth {A} (n : nat) (x : A) (l : list A) : list A :=
@@ -388,14 +389,14 @@ Definition cstep tbl bodyful (c : cstate) (i : nat) : cstate :=
       match sec_commit sec with
       | Some (d, u) =>
         mkC (mkWorld d (w_listed w && negb u)) (c_lock c) (upd (mkThread (th_prog th) (TPost sec k) (th_or th)))
-            (SetSt d :: c_trace c) (write_edges (w_st w) d (c_edges c)) (c_hazard c)
+            (SetSt d :: c_trace c) (write_edges (w_st w) d (c_edges c))
       | None =>
         mkC w (c_lock c) (upd (mkThread (th_prog th) (TPost sec k) (th_or th)))
-            (c_trace c) (c_edges c) (c_hazard c)
+            (c_trace c) (c_edges c)
       end
     | TPost sec k =>
       mkC w false (upd (mkThread (k (RB (sec_err sec))) TIdle (th_or th)))
-          (rev (sec_post sec) ++ c_trace c) (c_edges c) (c_hazard c)
+          (rev (sec_post sec) ++ c_trace c) (c_edges c)
     | TIdle =>
       match th_prog th with
       | Ret _ _ => c
@@ -403,20 +404,16 @@ Definition cstep tbl bodyful (c : cstate) (i : nat) : cstate :=
         match a with
         | ALookup =>
           mkC w (c_lock c) (upd (mkThread (k (RB (w_listed w))) TIdle (th_or th)))
-              (c_trace c) (c_edges c) (c_hazard c)
+              (c_trace c) (c_edges c)
         | ARead =>
           mkC w (c_lock c) (upd (mkThread (k (RS (w_st w))) TIdle (th_or th)))
-              (c_trace c) (c_edges c) (c_hazard c)
-        | AForce s =>
-          mkC (mkWorld s (w_listed w)) (c_lock c) (upd (mkThread (k RU) TIdle (th_or th)))
-              (rev (force_items (w_st w) s) ++ c_trace c) (write_edges (w_st w) s (c_edges c))
-              (c_hazard c || c_lock c || estate_eqb (w_st w) sDONE)
-        | ATry _ | ATeardown _ =>
+              (c_trace c) (c_edges c)
+        | ATry _ | ATeardown _ | AForce _ =>
           if c_lock c then c    (* blocked on the transition mutex *)
           else
             let sec := act_section tbl bodyful (th_or th) a (w_st w) in
             mkC w true (upd (mkThread (th_prog th) (TPre sec k) (th_or th)))
-                (rev (sec_pre sec) ++ c_trace c) (c_edges c) (c_hazard c)
+                (rev (sec_pre sec) ++ c_trace c) (c_edges c)
         end
       end
     end
@@ -429,7 +426,7 @@ Fixpoint run_sched tbl bodyful (sched : list nat) (c : cstate) : cstate :=
   end.
 
 Definition init_c (w : world) (ths : list (prog * oracle)) : cstate :=
-  mkC w false (map (fun po => mkThread (fst po) TIdle (snd po)) ths) [] [] false.
+  mkC w false (map (fun po => mkThread (fst po) TIdle (snd po)) ths) [] [].
 
 Definition th_idle (t : thread) : bool := match th_phase t with TIdle => true | _ => false end.
 Definition busy_count (c : cstate) : nat := length (filter (fun t => negb (th_idle t)) (c_threads c)).
@@ -506,7 +503,7 @@ Definition enabled (c : cstate) (i : nat) : bool :=
     | TIdle =>
       match th_prog th with
       | Ret _ _ => false
-      | Do (ATry _) _ | Do (ATeardown _) _ => negb (c_lock c)
+      | Do (ATry _) _ | Do (ATeardown _) _ | Do (AForce _) _ => negb (c_lock c)
       | Do _ _ => true
       end
     | _ => true
@@ -517,7 +514,7 @@ Definition next_silent (c : cstate) (i : nat) : bool :=
   match nth_error (c_threads c) i with
   | Some th =>
     match th_phase th, th_prog th with
-    | TIdle, Do ALookup _ | TIdle, Do ARead _ | TIdle, Do (AForce _) _ => true
+    | TIdle, Do ALookup _ | TIdle, Do ARead _ => true
     | _, _ => false
     end
   | None => false
@@ -554,6 +551,7 @@ Definition next_invisible (c : cstate) (i : nat) : bool :=
     | TIdle, Do (ATeardown f) _ =>
       negb (c_lock c) &&
       match sec_trace (teardown_section (th_or th) (w_st (c_w c)) f) with [] => true | _ => false end
+    | TIdle, Do (AForce _) _ => negb (c_lock c)   (* ForceError writes no event either *)
     | _, _ => false
     end
   | None => false
@@ -609,21 +607,9 @@ Fixpoint subseq_states (a b : list estate) : bool :=
    sampled at those instants: the sampled sequence must be a subsequence of the model's state
    sequence (a forced state overwritten before the next sample is not visible), the final state
    and every result must be equal. *)
-(* TeardownEnvironment reads the state several times (its checks, then "leave_" + CurrentState()):
-   a forced state that lands between them changes the name of the leave trigger it runs, while the
-   model's section reads the state once.  In runs in which the model itself records a forced state
-   inside a section (c_hazard) the state named by a leave hook is therefore not compared. *)
-Definition titem_eqb_loose (a b : titem) : bool :=
-  match a, b with
-  | Hook (MLeave _), Hook (MLeave _) => true
-  | _, _ => titem_eqb a b
-  end.
-
 Definition accepts (st0 : estate) (ths : list (req * N * option estate)) (items : list titem)
            (sampled : list estate) (final : estate) (listed : bool) (c : cstate) : bool :=
-  (trace_eqb (visible (rev (c_trace c))) items ||
-   (c_hazard c && list_eqb titem_eqb_loose (visible (rev (c_trace c))) items)) &&
-  estate_eqb (w_st (c_w c)) final &&
+  trace_eqb (visible (rev (c_trace c))) items && estate_eqb (w_st (c_w c)) final &&
   subseq_states (dedup_states st0 sampled) (trace_states (rev (c_trace c))) &&
   Bool.eqb (w_listed (c_w c)) listed && negb (c_lock c) &&
   all2 (fun th t => thread_result_ok th (snd (fst t)) (snd t)) (c_threads c) ths.
